@@ -1903,3 +1903,419 @@ Print Assumptions C02_wiring_StripeMeasures_weighted_bases.
 
 End Wiring_C02.
 (* ---- WIRING-APPENDIX:END ---- *)
+
+(*BEGIN ComposePublic_C02*)
+(* ==== COMPOSED PUBLIC THEOREMS (DESIGN 8.1: the composition of the translators' links, proved) ==== *)
+(* Generated by tools/gen_compose_appendix.py; do not edit between the markers.
+   [public_slice C p] (Proofs/ComposePublicSem.v) is the value of the public member p of cubepart._Slice computed
+   by the CHAIN OF GENERATED TERMS: the wiring term of p (Gen/WiringSrc.v, x_wiring) over the evaluation ([aeval]) of
+   the generated `_assemble_matrix` term (Gen/AssembleSrc.v, x_assemble) over the evaluations ([meval] / [meval_sq] /
+   [beval]) of the generated block terms of the measure (Gen/MeasureSrc.v, Gen/BasesSrc.v) -- each in the environment
+   in which the blocks of the measures it mentions are again evaluations of generated terms -- on the context
+   [Cs ..]: the four first-order arrays Model/CubeCounts.v::slice_counts extracts from the flat payload of
+   `tabulate S` ([survey_payload]), any subtotals / flags, any pair of in-range signed display orders.
+   [need b P] = P when every generated term named in b is available ([None] => True, like the GenAgree lemmas);
+   Cxx_public_terms_available: on this tree they all are.  The proofs use the GenAgree lemmas of the links as they
+   are (never unfolding a generated term) and Proofs/Compose*.v / Merge*.v for the last step to the respondents.
+   A change of MEANING of any generated term of a chain breaks the composed theorem of every member above it. *)
+From Coq Require String.
+From CC Require Spec.Merge Model.Subtotals Model.Proportions Proofs.MergeSurvey Proofs.ComposeBase Proofs.ComposePayload
+     Proofs.ComposePublicSem Proofs.ComposePublicLinks Proofs.ComposePublicSlice Proofs.ComposePublicCells Proofs.ComposePublicC02.
+Section ComposePublic_C02.   (* scopes and imports below end with the section *)
+Import Coq.Strings.String Coq.ZArith.ZArith CC.Spec.Merge CC.Model.Subtotals CC.Model.Proportions CC.Proofs.MergeSurvey
+       CC.Proofs.ComposeBase CC.Proofs.ComposePayload CC.Proofs.ComposePublicSem CC.Proofs.ComposePublicLinks
+       CC.Proofs.ComposePublicSlice CC.Proofs.ComposePublicCells CC.Proofs.ComposePublicC02.
+Import Coq.Lists.List.ListNotations.
+Local Close Scope Q_scope.
+Local Open Scope string_scope.
+Local Open Scope nat_scope.
+
+
+(* the vocabulary of the statements ([survey_display], [cells_spec], [merge_row_ok], [row_subtotal]:
+   C03_public_vocabulary in Props/C03.v) *)
+Theorem C02_public_vocabulary :
+  forall w S tv vr kr mr vc kc mc k rsubs ro co i j x,
+     base_cell_spec w S tv vr kr mr vc kc mc k rsubs ro co i j x =
+     (((0 <= nth i ro 0%Z)%Z ->
+         x =x= Fin (w tv k vr kr mr vc kc mc S (Z.to_nat (nth i ro 0%Z)) (Z.to_nat (nth j co 0%Z)))) /\
+      ((nth i ro 0%Z < 0)%Z -> kr = KCat -> merge_row_ok S tv vr vc mr (row_subtotal rsubs ro i) ->
+         x =x= Fin (w tv k vr KCat (merged_flags mr) vc kc mc
+                      (merged_rows_survey S vr mr (row_subtotal rsubs ro i)) (nval mr) (Z.to_nat (nth j co 0%Z))))).
+Proof. exact (fun _ _ _ _ _ _ _ _ _ _ _ _ _ _ _ _ => eq_refl). Qed.
+Print Assumptions C02_public_vocabulary.
+
+(* _Slice.row_weighted_bases, display cell (i, j) of a base column c: base row r: the weighted respondents in row r and eligible for column c; subtotal row: the same for the merged category *)
+Theorem C02_public_Slice_row_weighted_bases :
+  need terms_public_row_weighted_bases
+  (forall S tv vr kr mr vc kc mc k rsubs csubs dn rd cd flag ro co so,
+     survey_display S tv vr kr mr vc kc mc k rsubs csubs ro co so ->
+     cells_spec (public_slice (Cs mr mc rsubs csubs dn rd cd flag ro co so) "row_weighted_bases") ro co
+       (fun i j => base_cell_spec w_rowbase S tv vr kr mr vc kc mc k rsubs ro co i j)).
+Proof. exact compose_public_Slice_row_weighted_bases. Qed.
+Print Assumptions C02_public_Slice_row_weighted_bases.
+
+(* _Slice.column_weighted_bases, display cell (i, j) of a base column c: base row r: the weighted respondents eligible for row r and in column c; subtotal row: the same for the merged category *)
+Theorem C02_public_Slice_column_weighted_bases :
+  need terms_public_column_weighted_bases
+  (forall S tv vr kr mr vc kc mc k rsubs csubs dn rd cd flag ro co so,
+     survey_display S tv vr kr mr vc kc mc k rsubs csubs ro co so ->
+     cells_spec (public_slice (Cs mr mc rsubs csubs dn rd cd flag ro co so) "column_weighted_bases") ro co
+       (fun i j => base_cell_spec w_colbase S tv vr kr mr vc kc mc k rsubs ro co i j)).
+Proof. exact compose_public_Slice_column_weighted_bases. Qed.
+Print Assumptions C02_public_Slice_column_weighted_bases.
+
+(* _Slice.table_weighted_bases, display cell (i, j) of a base column c: base row r: the weighted respondents eligible for row r and for column c; subtotal row: the same for the merged category *)
+Theorem C02_public_Slice_table_weighted_bases :
+  need terms_public_table_weighted_bases
+  (forall S tv vr kr mr vc kc mc k rsubs csubs dn rd cd flag ro co so,
+     survey_display S tv vr kr mr vc kc mc k rsubs csubs ro co so ->
+     cells_spec (public_slice (Cs mr mc rsubs csubs dn rd cd flag ro co so) "table_weighted_bases") ro co
+       (fun i j => base_cell_spec w_tabbase S tv vr kr mr vc kc mc k rsubs ro co i j)).
+Proof. exact compose_public_Slice_table_weighted_bases. Qed.
+Print Assumptions C02_public_Slice_table_weighted_bases.
+
+(* NON-VACUITY of the guards: every generated term the chains need is available on this tree *)
+Theorem C02_public_terms_available :
+  terms_public_row_weighted_bases = true /\ terms_public_column_weighted_bases = true /\ terms_public_table_weighted_bases = true.
+Proof. exact (conj eq_refl (conj eq_refl eq_refl)). Qed.
+Print Assumptions C02_public_terms_available.
+
+(* EXAMPLES: the survey, subtotal and display of the C03_public_* examples *)
+Example C02_public_Slice_row_weighted_bases_example :
+  let S := [ mkResp [ACat 0; AMr [Sel; Oth]; ACat 0] (3 # 2);
+             mkResp [ACat 2; AMr [Sel; Mis]; ACat 1] 2;
+             mkResp [ACat 1; AMr [Sel; Sel]; ACat 0] 5;
+             mkResp [ACat 2; AMr [Oth; Sel]; ACat 1] (1 # 4);
+             mkResp [ACat 0; AMr [Oth; Oth]; ACat 2] 1 ] in
+  let mr := [false; true; false; false] in
+  let mc := [false; false] in
+  let rs := [mkSub [0; 2] []] in
+  let ro := [1; -1; 0]%Z in
+  let co := [1; 0]%Z in
+  let S' := merged_rows_survey S 0 mr (row_subtotal rs ro 1) in
+  match slice_counts (cube_dims None KCat mr KMr mc) (survey_payload None 0 KCat mr 1 KMr mc S) 0 with
+  | Some so =>
+      let P := public_slice (Cs mr mc rs [] false false false (fun _ => false) ro co so) "row_weighted_bases" in
+      survey_display S None 0 KCat mr 1 KMr mc 0 rs [] ro co so /\
+      merge_row_ok S None 0 1 mr (row_subtotal rs ro 1) /\
+      cells_spec P ro co (fun i j => base_cell_spec w_rowbase S None 0 KCat mr 1 KMr mc 0 rs ro co i j) /\
+      pred P = PMat 3 2 [[Fin (1 # 4); Fin (9 # 4)]; [Fin (5 # 2); Fin (5 # 2)]; [Fin (5 # 2); Fin (5 # 2)]] /\
+      (w_rowbase None 0 0 KCat mr 1 KMr mc S 1 0 == 9 # 4)%Q /\
+      (w_rowbase None 0 0 KCat (merged_flags mr) 1 KMr mc S' 3 0 == 5 # 2)%Q
+  | None => False
+  end.
+Proof.
+  cbv zeta.
+  destruct (slice_counts (cube_dims None KCat [false; true; false; false] KMr [false; false])
+              (survey_payload None 0 KCat [false; true; false; false] 1 KMr [false; false] _) 0) as [so|] eqn:E;
+    [|vm_compute in E; discriminate].
+  assert (D : survey_display
+                [ mkResp [ACat 0; AMr [Sel; Oth]; ACat 0] (3 # 2); mkResp [ACat 2; AMr [Sel; Mis]; ACat 1] 2;
+                  mkResp [ACat 1; AMr [Sel; Sel]; ACat 0] 5; mkResp [ACat 2; AMr [Oth; Sel]; ACat 1] (1 # 4);
+                  mkResp [ACat 0; AMr [Oth; Oth]; ACat 2] 1 ]
+                None 0 KCat [false; true; false; false] 1 KMr [false; false] 0 [mkSub [0; 2] []] []
+                [1; -1; 0]%Z [1; 0]%Z so).
+  { split; [exact I|]. split; [left; reflexivity|]. split; [right; reflexivity|]. split; [vm_compute; lia|].
+    split; [repeat constructor; discriminate|]. split; [vm_compute; lia|]. split; [vm_compute; lia|].
+    split; [exact E|]. split; repeat constructor; vm_compute; discriminate. }
+  split; [exact D|].
+  split.
+  { split; [discriminate|]. split; [exact I|]. split.
+    - intros r Hr. repeat (destruct Hr as [<-|Hr]; [vm_compute; discriminate|]). destruct Hr.
+    - split; [reflexivity|]. split; [repeat constructor; vm_compute; lia|].
+      repeat constructor; simpl; intuition discriminate. }
+  split; [exact (need_elim _ _ eq_refl C02_public_Slice_row_weighted_bases _ _ _ _ _ _ _ _ _ _ _ _ _ _ _ _ _ _ D)|].
+  vm_compute in E. injection E as <-.
+  split; [vm_compute; reflexivity|]. split; [vm_compute; reflexivity|]. vm_compute; reflexivity.
+Qed.
+
+Example C02_public_Slice_column_weighted_bases_example :
+  let S := [ mkResp [ACat 0; AMr [Sel; Oth]; ACat 0] (3 # 2);
+             mkResp [ACat 2; AMr [Sel; Mis]; ACat 1] 2;
+             mkResp [ACat 1; AMr [Sel; Sel]; ACat 0] 5;
+             mkResp [ACat 2; AMr [Oth; Sel]; ACat 1] (1 # 4);
+             mkResp [ACat 0; AMr [Oth; Oth]; ACat 2] 1 ] in
+  let mr := [false; true; false; false] in
+  let mc := [false; false] in
+  let rs := [mkSub [0; 2] []] in
+  let ro := [1; -1; 0]%Z in
+  let co := [1; 0]%Z in
+  let S' := merged_rows_survey S 0 mr (row_subtotal rs ro 1) in
+  match slice_counts (cube_dims None KCat mr KMr mc) (survey_payload None 0 KCat mr 1 KMr mc S) 0 with
+  | Some so =>
+      let P := public_slice (Cs mr mc rs [] false false false (fun _ => false) ro co so) "column_weighted_bases" in
+      survey_display S None 0 KCat mr 1 KMr mc 0 rs [] ro co so /\
+      merge_row_ok S None 0 1 mr (row_subtotal rs ro 1) /\
+      cells_spec P ro co (fun i j => base_cell_spec w_colbase S None 0 KCat mr 1 KMr mc 0 rs ro co i j) /\
+      pred P = PMat 3 2 [[Fin (1 # 4); Fin (7 # 2)]; [Fin (1 # 4); Fin (7 # 2)]; [Fin (1 # 4); Fin (7 # 2)]] /\
+      (w_colbase None 0 0 KCat mr 1 KMr mc S 1 0 == 7 # 2)%Q /\
+      (w_colbase None 0 0 KCat (merged_flags mr) 1 KMr mc S' 3 0 == 7 # 2)%Q
+  | None => False
+  end.
+Proof.
+  cbv zeta.
+  destruct (slice_counts (cube_dims None KCat [false; true; false; false] KMr [false; false])
+              (survey_payload None 0 KCat [false; true; false; false] 1 KMr [false; false] _) 0) as [so|] eqn:E;
+    [|vm_compute in E; discriminate].
+  assert (D : survey_display
+                [ mkResp [ACat 0; AMr [Sel; Oth]; ACat 0] (3 # 2); mkResp [ACat 2; AMr [Sel; Mis]; ACat 1] 2;
+                  mkResp [ACat 1; AMr [Sel; Sel]; ACat 0] 5; mkResp [ACat 2; AMr [Oth; Sel]; ACat 1] (1 # 4);
+                  mkResp [ACat 0; AMr [Oth; Oth]; ACat 2] 1 ]
+                None 0 KCat [false; true; false; false] 1 KMr [false; false] 0 [mkSub [0; 2] []] []
+                [1; -1; 0]%Z [1; 0]%Z so).
+  { split; [exact I|]. split; [left; reflexivity|]. split; [right; reflexivity|]. split; [vm_compute; lia|].
+    split; [repeat constructor; discriminate|]. split; [vm_compute; lia|]. split; [vm_compute; lia|].
+    split; [exact E|]. split; repeat constructor; vm_compute; discriminate. }
+  split; [exact D|].
+  split.
+  { split; [discriminate|]. split; [exact I|]. split.
+    - intros r Hr. repeat (destruct Hr as [<-|Hr]; [vm_compute; discriminate|]). destruct Hr.
+    - split; [reflexivity|]. split; [repeat constructor; vm_compute; lia|].
+      repeat constructor; simpl; intuition discriminate. }
+  split; [exact (need_elim _ _ eq_refl C02_public_Slice_column_weighted_bases _ _ _ _ _ _ _ _ _ _ _ _ _ _ _ _ _ _ D)|].
+  vm_compute in E. injection E as <-.
+  split; [vm_compute; reflexivity|]. split; [vm_compute; reflexivity|]. vm_compute; reflexivity.
+Qed.
+
+Example C02_public_Slice_table_weighted_bases_example :
+  let S := [ mkResp [ACat 0; AMr [Sel; Oth]; ACat 0] (3 # 2);
+             mkResp [ACat 2; AMr [Sel; Mis]; ACat 1] 2;
+             mkResp [ACat 1; AMr [Sel; Sel]; ACat 0] 5;
+             mkResp [ACat 2; AMr [Oth; Sel]; ACat 1] (1 # 4);
+             mkResp [ACat 0; AMr [Oth; Oth]; ACat 2] 1 ] in
+  let mr := [false; true; false; false] in
+  let mc := [false; false] in
+  let rs := [mkSub [0; 2] []] in
+  let ro := [1; -1; 0]%Z in
+  let co := [1; 0]%Z in
+  let S' := merged_rows_survey S 0 mr (row_subtotal rs ro 1) in
+  match slice_counts (cube_dims None KCat mr KMr mc) (survey_payload None 0 KCat mr 1 KMr mc S) 0 with
+  | Some so =>
+      let P := public_slice (Cs mr mc rs [] false false false (fun _ => false) ro co so) "table_weighted_bases" in
+      survey_display S None 0 KCat mr 1 KMr mc 0 rs [] ro co so /\
+      merge_row_ok S None 0 1 mr (row_subtotal rs ro 1) /\
+      cells_spec P ro co (fun i j => base_cell_spec w_tabbase S None 0 KCat mr 1 KMr mc 0 rs ro co i j) /\
+      pred P = PMat 3 2 [[Fin (11 # 4); Fin (19 # 4)]; [Fin (11 # 4); Fin (19 # 4)]; [Fin (11 # 4); Fin (19 # 4)]] /\
+      (w_tabbase None 0 0 KCat mr 1 KMr mc S 1 0 == 19 # 4)%Q /\
+      (w_tabbase None 0 0 KCat (merged_flags mr) 1 KMr mc S' 3 0 == 19 # 4)%Q
+  | None => False
+  end.
+Proof.
+  cbv zeta.
+  destruct (slice_counts (cube_dims None KCat [false; true; false; false] KMr [false; false])
+              (survey_payload None 0 KCat [false; true; false; false] 1 KMr [false; false] _) 0) as [so|] eqn:E;
+    [|vm_compute in E; discriminate].
+  assert (D : survey_display
+                [ mkResp [ACat 0; AMr [Sel; Oth]; ACat 0] (3 # 2); mkResp [ACat 2; AMr [Sel; Mis]; ACat 1] 2;
+                  mkResp [ACat 1; AMr [Sel; Sel]; ACat 0] 5; mkResp [ACat 2; AMr [Oth; Sel]; ACat 1] (1 # 4);
+                  mkResp [ACat 0; AMr [Oth; Oth]; ACat 2] 1 ]
+                None 0 KCat [false; true; false; false] 1 KMr [false; false] 0 [mkSub [0; 2] []] []
+                [1; -1; 0]%Z [1; 0]%Z so).
+  { split; [exact I|]. split; [left; reflexivity|]. split; [right; reflexivity|]. split; [vm_compute; lia|].
+    split; [repeat constructor; discriminate|]. split; [vm_compute; lia|]. split; [vm_compute; lia|].
+    split; [exact E|]. split; repeat constructor; vm_compute; discriminate. }
+  split; [exact D|].
+  split.
+  { split; [discriminate|]. split; [exact I|]. split.
+    - intros r Hr. repeat (destruct Hr as [<-|Hr]; [vm_compute; discriminate|]). destruct Hr.
+    - split; [reflexivity|]. split; [repeat constructor; vm_compute; lia|].
+      repeat constructor; simpl; intuition discriminate. }
+  split; [exact (need_elim _ _ eq_refl C02_public_Slice_table_weighted_bases _ _ _ _ _ _ _ _ _ _ _ _ _ _ _ _ _ _ D)|].
+  vm_compute in E. injection E as <-.
+  split; [vm_compute; reflexivity|]. split; [vm_compute; reflexivity|]. vm_compute; reflexivity.
+Qed.
+
+
+(* UNWEIGHTED BASES.  [Cs_u .. so su]: the context with both cube measures - `weighted_cube_counts` from the payload of S
+   (so), `unweighted_cube_counts` from the payload of the survey with UNIT weights (su; its 1-D rows_base / columns_base are
+   the repeated margins of the row / column unweighted bases).  A base cell is the NUMBER of respondents of the base. *)
+Theorem C02_public_unweighted_vocabulary :
+  (forall w S tv vr kr mr vc kc mc k r c x,
+     ubase_cell_spec w S tv vr kr mr vc kc mc k r c x = (x =x= Fin (w tv k vr kr mr vc kc mc (unit_weights S) r c))) /\
+  (forall P ro co spec,
+     base_cells_spec P ro co spec =
+     (pshape P = Some (List.length ro, List.length co) /\
+      forall i j, i < List.length ro -> j < List.length co -> (0 <= nth i ro 0%Z)%Z -> (0 <= nth j co 0%Z)%Z ->
+        spec (Z.to_nat (nth i ro 0%Z)) (Z.to_nat (nth j co 0%Z)) (pcell P i j))).
+Proof. exact (conj (fun _ _ _ _ _ _ _ _ _ _ _ _ _ => eq_refl) (fun _ _ _ _ => eq_refl)). Qed.
+Print Assumptions C02_public_unweighted_vocabulary.
+
+Theorem C02_public_Slice_row_unweighted_bases :
+  need terms_public_row_unweighted_bases
+  (forall S tv vr kr mr vc kc mc k rsubs csubs dn rd cd flag ro co so su,
+     survey_display S tv vr kr mr vc kc mc k rsubs csubs ro co so ->
+     slice_counts (cube_dims tv kr mr kc mc) (survey_payload tv vr kr mr vc kc mc (unit_weights S)) k = Some su ->
+     base_cells_spec (public_slice (Cs_u mr mc rsubs csubs dn rd cd flag ro co so su) "row_unweighted_bases") ro co
+       (ubase_cell_spec w_rowbase S tv vr kr mr vc kc mc k)).
+Proof. exact compose_public_Slice_row_unweighted_bases. Qed.
+Print Assumptions C02_public_Slice_row_unweighted_bases.
+
+Theorem C02_public_Slice_column_unweighted_bases :
+  need terms_public_column_unweighted_bases
+  (forall S tv vr kr mr vc kc mc k rsubs csubs dn rd cd flag ro co so su,
+     survey_display S tv vr kr mr vc kc mc k rsubs csubs ro co so ->
+     slice_counts (cube_dims tv kr mr kc mc) (survey_payload tv vr kr mr vc kc mc (unit_weights S)) k = Some su ->
+     base_cells_spec (public_slice (Cs_u mr mc rsubs csubs dn rd cd flag ro co so su) "column_unweighted_bases") ro co
+       (ubase_cell_spec w_colbase S tv vr kr mr vc kc mc k)).
+Proof. exact compose_public_Slice_column_unweighted_bases. Qed.
+Print Assumptions C02_public_Slice_column_unweighted_bases.
+
+Theorem C02_public_Slice_table_unweighted_bases :
+  need terms_public_table_unweighted_bases
+  (forall S tv vr kr mr vc kc mc k rsubs csubs dn rd cd flag ro co so su,
+     survey_display S tv vr kr mr vc kc mc k rsubs csubs ro co so ->
+     slice_counts (cube_dims tv kr mr kc mc) (survey_payload tv vr kr mr vc kc mc (unit_weights S)) k = Some su ->
+     base_cells_spec (public_slice (Cs_u mr mc rsubs csubs dn rd cd flag ro co so su) "table_unweighted_bases") ro co
+       (ubase_cell_spec w_tabbase S tv vr kr mr vc kc mc k)).
+Proof. exact compose_public_Slice_table_unweighted_bases. Qed.
+Print Assumptions C02_public_Slice_table_unweighted_bases.
+
+Theorem C02_public_unweighted_terms_available :
+  terms_public_row_unweighted_bases = true /\ terms_public_column_unweighted_bases = true /\
+  terms_public_table_unweighted_bases = true.
+Proof. exact (conj eq_refl (conj eq_refl eq_refl)). Qed.
+Print Assumptions C02_public_unweighted_terms_available.
+
+Example C02_public_Slice_row_unweighted_bases_example :
+  let S := [ mkResp [ACat 0; AMr [Sel; Oth]; ACat 0] (3 # 2);
+             mkResp [ACat 2; AMr [Sel; Mis]; ACat 1] 2;
+             mkResp [ACat 1; AMr [Sel; Sel]; ACat 0] 5;
+             mkResp [ACat 2; AMr [Oth; Sel]; ACat 1] (1 # 4);
+             mkResp [ACat 0; AMr [Oth; Oth]; ACat 2] 1 ] in
+  let mr := [false; true; false; false] in
+  let mc := [false; false] in
+  let rs := [mkSub [0; 2] []] in
+  let ro := [1; -1; 0]%Z in
+  let co := [1; 0]%Z in
+  match slice_counts (cube_dims None KCat mr KMr mc) (survey_payload None 0 KCat mr 1 KMr mc S) 0,
+        slice_counts (cube_dims None KCat mr KMr mc) (survey_payload None 0 KCat mr 1 KMr mc (unit_weights S)) 0 with
+  | Some so, Some su =>
+      let P := public_slice (Cs_u mr mc rs [] false false false (fun _ => false) ro co so su) "row_unweighted_bases" in
+      survey_display S None 0 KCat mr 1 KMr mc 0 rs [] ro co so /\
+      base_cells_spec P ro co (ubase_cell_spec w_rowbase S None 0 KCat mr 1 KMr mc 0) /\
+      pred P = PMat 3 2 [[Fin 1; Fin 2]; [Fin 2; Fin 2]; [Fin 2; Fin 2]] /\
+      (w_rowbase None 0 0 KCat mr 1 KMr mc (unit_weights S) 1 0 == 2)%Q
+  | _, _ => False
+  end.
+Proof.
+  cbv zeta.
+  destruct (slice_counts (cube_dims None KCat [false; true; false; false] KMr [false; false])
+              (survey_payload None 0 KCat [false; true; false; false] 1 KMr [false; false]
+                 [ mkResp [ACat 0; AMr [Sel; Oth]; ACat 0] (3 # 2); mkResp [ACat 2; AMr [Sel; Mis]; ACat 1] 2;
+                   mkResp [ACat 1; AMr [Sel; Sel]; ACat 0] 5; mkResp [ACat 2; AMr [Oth; Sel]; ACat 1] (1 # 4);
+                   mkResp [ACat 0; AMr [Oth; Oth]; ACat 2] 1 ]) 0) as [so|] eqn:E;
+    [|vm_compute in E; discriminate].
+  destruct (slice_counts (cube_dims None KCat [false; true; false; false] KMr [false; false])
+              (survey_payload None 0 KCat [false; true; false; false] 1 KMr [false; false] (unit_weights _)) 0)
+    as [su|] eqn:EU; [|vm_compute in EU; discriminate].
+  assert (D : survey_display
+                [ mkResp [ACat 0; AMr [Sel; Oth]; ACat 0] (3 # 2); mkResp [ACat 2; AMr [Sel; Mis]; ACat 1] 2;
+                  mkResp [ACat 1; AMr [Sel; Sel]; ACat 0] 5; mkResp [ACat 2; AMr [Oth; Sel]; ACat 1] (1 # 4);
+                  mkResp [ACat 0; AMr [Oth; Oth]; ACat 2] 1 ]
+                None 0 KCat [false; true; false; false] 1 KMr [false; false] 0 [mkSub [0; 2] []] []
+                [1; -1; 0]%Z [1; 0]%Z so).
+  { split; [exact I|]. split; [left; reflexivity|]. split; [right; reflexivity|]. split; [vm_compute; lia|].
+    split; [repeat constructor; discriminate|]. split; [vm_compute; lia|]. split; [vm_compute; lia|].
+    split; [exact E|]. split; repeat constructor; vm_compute; discriminate. }
+  split; [exact D|].
+  split; [exact (need_elim _ _ eq_refl C02_public_Slice_row_unweighted_bases _ _ _ _ _ _ _ _ _ _ _ _ _ _ _ _ _ _ _ D EU)|].
+  vm_compute in E. injection E as <-. vm_compute in EU. injection EU as <-.
+  split; vm_compute; reflexivity.
+Qed.
+
+Example C02_public_Slice_column_unweighted_bases_example :
+  let S := [ mkResp [ACat 0; AMr [Sel; Oth]; ACat 0] (3 # 2);
+             mkResp [ACat 2; AMr [Sel; Mis]; ACat 1] 2;
+             mkResp [ACat 1; AMr [Sel; Sel]; ACat 0] 5;
+             mkResp [ACat 2; AMr [Oth; Sel]; ACat 1] (1 # 4);
+             mkResp [ACat 0; AMr [Oth; Oth]; ACat 2] 1 ] in
+  let mr := [false; true; false; false] in
+  let mc := [false; false] in
+  let rs := [mkSub [0; 2] []] in
+  let ro := [1; -1; 0]%Z in
+  let co := [1; 0]%Z in
+  match slice_counts (cube_dims None KCat mr KMr mc) (survey_payload None 0 KCat mr 1 KMr mc S) 0,
+        slice_counts (cube_dims None KCat mr KMr mc) (survey_payload None 0 KCat mr 1 KMr mc (unit_weights S)) 0 with
+  | Some so, Some su =>
+      let P := public_slice (Cs_u mr mc rs [] false false false (fun _ => false) ro co so su) "column_unweighted_bases" in
+      survey_display S None 0 KCat mr 1 KMr mc 0 rs [] ro co so /\
+      base_cells_spec P ro co (ubase_cell_spec w_colbase S None 0 KCat mr 1 KMr mc 0) /\
+      pred P = PMat 3 2 [[Fin 1; Fin 2]; [Fin 1; Fin 2]; [Fin 1; Fin 2]] /\
+      (w_colbase None 0 0 KCat mr 1 KMr mc (unit_weights S) 1 0 == 2)%Q
+  | _, _ => False
+  end.
+Proof.
+  cbv zeta.
+  destruct (slice_counts (cube_dims None KCat [false; true; false; false] KMr [false; false])
+              (survey_payload None 0 KCat [false; true; false; false] 1 KMr [false; false]
+                 [ mkResp [ACat 0; AMr [Sel; Oth]; ACat 0] (3 # 2); mkResp [ACat 2; AMr [Sel; Mis]; ACat 1] 2;
+                   mkResp [ACat 1; AMr [Sel; Sel]; ACat 0] 5; mkResp [ACat 2; AMr [Oth; Sel]; ACat 1] (1 # 4);
+                   mkResp [ACat 0; AMr [Oth; Oth]; ACat 2] 1 ]) 0) as [so|] eqn:E;
+    [|vm_compute in E; discriminate].
+  destruct (slice_counts (cube_dims None KCat [false; true; false; false] KMr [false; false])
+              (survey_payload None 0 KCat [false; true; false; false] 1 KMr [false; false] (unit_weights _)) 0)
+    as [su|] eqn:EU; [|vm_compute in EU; discriminate].
+  assert (D : survey_display
+                [ mkResp [ACat 0; AMr [Sel; Oth]; ACat 0] (3 # 2); mkResp [ACat 2; AMr [Sel; Mis]; ACat 1] 2;
+                  mkResp [ACat 1; AMr [Sel; Sel]; ACat 0] 5; mkResp [ACat 2; AMr [Oth; Sel]; ACat 1] (1 # 4);
+                  mkResp [ACat 0; AMr [Oth; Oth]; ACat 2] 1 ]
+                None 0 KCat [false; true; false; false] 1 KMr [false; false] 0 [mkSub [0; 2] []] []
+                [1; -1; 0]%Z [1; 0]%Z so).
+  { split; [exact I|]. split; [left; reflexivity|]. split; [right; reflexivity|]. split; [vm_compute; lia|].
+    split; [repeat constructor; discriminate|]. split; [vm_compute; lia|]. split; [vm_compute; lia|].
+    split; [exact E|]. split; repeat constructor; vm_compute; discriminate. }
+  split; [exact D|].
+  split; [exact (need_elim _ _ eq_refl C02_public_Slice_column_unweighted_bases _ _ _ _ _ _ _ _ _ _ _ _ _ _ _ _ _ _ _ D EU)|].
+  vm_compute in E. injection E as <-. vm_compute in EU. injection EU as <-.
+  split; vm_compute; reflexivity.
+Qed.
+
+Example C02_public_Slice_table_unweighted_bases_example :
+  let S := [ mkResp [ACat 0; AMr [Sel; Oth]; ACat 0] (3 # 2);
+             mkResp [ACat 2; AMr [Sel; Mis]; ACat 1] 2;
+             mkResp [ACat 1; AMr [Sel; Sel]; ACat 0] 5;
+             mkResp [ACat 2; AMr [Oth; Sel]; ACat 1] (1 # 4);
+             mkResp [ACat 0; AMr [Oth; Oth]; ACat 2] 1 ] in
+  let mr := [false; true; false; false] in
+  let mc := [false; false] in
+  let rs := [mkSub [0; 2] []] in
+  let ro := [1; -1; 0]%Z in
+  let co := [1; 0]%Z in
+  match slice_counts (cube_dims None KCat mr KMr mc) (survey_payload None 0 KCat mr 1 KMr mc S) 0,
+        slice_counts (cube_dims None KCat mr KMr mc) (survey_payload None 0 KCat mr 1 KMr mc (unit_weights S)) 0 with
+  | Some so, Some su =>
+      let P := public_slice (Cs_u mr mc rs [] false false false (fun _ => false) ro co so su) "table_unweighted_bases" in
+      survey_display S None 0 KCat mr 1 KMr mc 0 rs [] ro co so /\
+      base_cells_spec P ro co (ubase_cell_spec w_tabbase S None 0 KCat mr 1 KMr mc 0) /\
+      pred P = PMat 3 2 [[Fin 3; Fin 4]; [Fin 3; Fin 4]; [Fin 3; Fin 4]] /\
+      (w_tabbase None 0 0 KCat mr 1 KMr mc (unit_weights S) 1 0 == 4)%Q
+  | _, _ => False
+  end.
+Proof.
+  cbv zeta.
+  destruct (slice_counts (cube_dims None KCat [false; true; false; false] KMr [false; false])
+              (survey_payload None 0 KCat [false; true; false; false] 1 KMr [false; false]
+                 [ mkResp [ACat 0; AMr [Sel; Oth]; ACat 0] (3 # 2); mkResp [ACat 2; AMr [Sel; Mis]; ACat 1] 2;
+                   mkResp [ACat 1; AMr [Sel; Sel]; ACat 0] 5; mkResp [ACat 2; AMr [Oth; Sel]; ACat 1] (1 # 4);
+                   mkResp [ACat 0; AMr [Oth; Oth]; ACat 2] 1 ]) 0) as [so|] eqn:E;
+    [|vm_compute in E; discriminate].
+  destruct (slice_counts (cube_dims None KCat [false; true; false; false] KMr [false; false])
+              (survey_payload None 0 KCat [false; true; false; false] 1 KMr [false; false] (unit_weights _)) 0)
+    as [su|] eqn:EU; [|vm_compute in EU; discriminate].
+  assert (D : survey_display
+                [ mkResp [ACat 0; AMr [Sel; Oth]; ACat 0] (3 # 2); mkResp [ACat 2; AMr [Sel; Mis]; ACat 1] 2;
+                  mkResp [ACat 1; AMr [Sel; Sel]; ACat 0] 5; mkResp [ACat 2; AMr [Oth; Sel]; ACat 1] (1 # 4);
+                  mkResp [ACat 0; AMr [Oth; Oth]; ACat 2] 1 ]
+                None 0 KCat [false; true; false; false] 1 KMr [false; false] 0 [mkSub [0; 2] []] []
+                [1; -1; 0]%Z [1; 0]%Z so).
+  { split; [exact I|]. split; [left; reflexivity|]. split; [right; reflexivity|]. split; [vm_compute; lia|].
+    split; [repeat constructor; discriminate|]. split; [vm_compute; lia|]. split; [vm_compute; lia|].
+    split; [exact E|]. split; repeat constructor; vm_compute; discriminate. }
+  split; [exact D|].
+  split; [exact (need_elim _ _ eq_refl C02_public_Slice_table_unweighted_bases _ _ _ _ _ _ _ _ _ _ _ _ _ _ _ _ _ _ _ D EU)|].
+  vm_compute in E. injection E as <-. vm_compute in EU. injection EU as <-.
+  split; vm_compute; reflexivity.
+Qed.
+
+End ComposePublic_C02.
+(*END ComposePublic_C02*)
